@@ -32,6 +32,9 @@ CHECKS = {
  'C15': dict(level='exploration', ref='3/C15', technique='TLA+ model of the supply paths (Forms.tla, exhaustive small texts, replayed into the API) plus Laws!FormsLaw / Laws!CliLaw judged by TLC on recorded outputs',
    text='Forms.tla shows all supply paths yield one line list for every text of <= 3 lines over 8 bodies; each such text and sampled corpus/fuzz texts are pushed through str/list/iterator/file/cli.convert and real python -m mistletoe subprocesses; TLC judges output equality and CLI concatenation.',
    note='Trusted: harness/c15.py form drivers; texts with line terminators other than LF are outside the domain.'),
+ 'C16': dict(level='model_checking', ref='3/C16', technique='TLA+ model of inline conflict resolution (SpanResolve.tla: stated pair rule + fold) checked exhaustively by TLC; every configuration realised with real custom tokens (spec -> code); observed forests judged by TLC (SpanTrace!Cover)',
+   text='TLC enumerates every ordered pair of candidates over positions 0..3/0..4 x precedences x parse_inner x parse groups, checks the fold against the stated rule and exports the admissible outcomes; each configuration is run through the real tokenizer with custom SpanToken classes (both list orders for equal starts). Random triples/quadruples go through the model fold in batch; every observed forest (also from random regex tokens over random texts) is judged for tiling by TLC, and scoping after context exit is checked.',
+   note='Trusted: the realisation of candidates as SpanToken subclasses with a custom find (the documented override) and the projection by recorded offsets in harness/c16.py; the two cases the statement leaves open are admitted both ways.'),
  'C18': dict(level='exploration', ref='3/C18', technique='TLA+ law (Laws!ConservativeLaw) judged by TLC on recorded outputs (trace validation)',
    text='For sampled inputs meeting each renderer\'s side condition, the contrib renderer\'s output and HtmlRenderer\'s output (same options) are judged by TLC.',
    note='Trusted: side conditions ("[[", "$" textual; code block from the HTML renderer\'s parse as the statement phrases it); TLC.'),
